@@ -1156,20 +1156,20 @@ def check_rebuild(recipe, ctx):
 
 CLS_FLOORS = {'cls-glom-subclass': 0.12, 'cls-setattr-refusing': 0.045}
 # the enumerated matrix holds every class the same number of times: exact shares (7 step sites of 71 names; 1 class of 71)
-MATRIX_FLOORS = dict(CLS_FLOORS, **{'tstep-carried': 0.055, 'tstep-ValueError': 0.015, 'tstep-OverflowError': 0.008,
+MATRIX_FLOORS = dict(CLS_FLOORS, **{'tstep-carried': 0.045, 'tstep-ValueError': 0.008, 'tstep-OverflowError': 0.008,
                                     'tstep-InvalidOperation': 0.008, 'tstep-KeyError': 0.008, 'tstep-TypeError': 0.008,
                                     'tstep-ZeroDivisionError': 0.008, 'cls-args-derived-attr': 0.008})
 
 SUBS = [
     Sub('matrix', check_case, enum=enum_matrix, floors=MATRIX_FLOORS),
     Sub('deep', check_case, gen=gen_deep, quick=3000, thorough=15000,
-        floors=dict(CLS_FLOORS, **{'outcome-swallowed': 0.1, 'outcome-raised': 0.1, 'detected': 0.09, 'tstep-carried': 0.05})),
+        floors=dict(CLS_FLOORS, **{'outcome-swallowed': 0.1, 'outcome-raised': 0.1, 'detected': 0.09, 'tstep-carried': 0.04})),
     Sub('reentrant', check_reentrant, gen=gen_reentrant, quick=1500, thorough=6000, floors=dict(CLS_FLOORS)),
     Sub('extension', check_extension, gen=gen_extension, quick=1600, thorough=6000,
         floors={'flat-later': 0.2, 'chained-later': 0.12, 'ext-first-or-alone': 0.17, 'detected': 0.08, 'layers-2': 0.15,
                 'outcome-raised': 0.12, 'outcome-swallowed': 0.25, 'via-scope-glom': 0.1, 'via-spec-glom-scope': 0.25,
                 'via-spec-glom-scope-own': 0.12, 'via-spec-glomit': 0.12, 'holder-glomit': 0.3, 'holder-invoke-S': 0.14,
-                'holder-call-S': 0.14, 'cls-glom-subclass': 0.09, 'cls-setattr-refusing': 0.035, 'tstep-carried': 0.05}),
+                'holder-call-S': 0.14, 'cls-glom-subclass': 0.09, 'cls-setattr-refusing': 0.035, 'tstep-carried': 0.04}),
     Sub('samename', check_samename, gen=gen_samename, quick=400, thorough=2000),
     Sub('rebuild', check_rebuild, gen=gen_rebuild, quick=600, thorough=3000, floors={'rebuildable-after-unrebuildable': 0.1}),
     Sub('mutsite', check_mutsite, enum=enum_mutsite,
